@@ -26,7 +26,7 @@ ASSUMPTIONS = [
     "an unchanged %rewrite unit is absent from the diff by design: the projection law is evaluated modulo such units",
     "order is compared inside %ordered groups only (call_diff_logic concatenates groups)",
 ]
-FLOORS = {"quick": {"diffs_compared": 3000, "moved_entries": 200, "rewrite_units_changed": 50, "text_views_checked": 3000, "self_diffs": 1000, "ignore_case_rulebooks": 400, "acl_diffs_compared": 600, "removals_of_not_deletable_rows": 100, "big_blocks_compared": 120, "diff_worker_runs": 600, "collapsed_device_groups_checked": 1500, "file_diff_texts_checked": 600, "rulebooks_with_global_rules_on_two_levels": 400, "diff_texts_of_several_devices_checked": 1500},
+FLOORS = {"quick": {"diffs_compared": 3000, "moved_entries": 200, "rewrite_units_changed": 50, "text_views_checked": 3000, "self_diffs": 1000, "ignore_case_rulebooks": 400, "acl_diffs_compared": 600, "removals_of_not_deletable_rows": 100, "big_blocks_compared": 120, "diff_worker_runs": 600, "collapsed_device_groups_checked": 1500, "file_diff_texts_checked": 600, "rulebooks_with_global_rules_on_two_levels": 400, "diff_texts_of_several_devices_checked": 1500, "rows_of_ignore_case_rules_spelled_in_another_case": 300, "rulebooks_with_a_specific_rule_bringing_its_own_global_rule": 300, "rows_of_the_specific_rules_global_family": 200},
           "thorough": {"diffs_compared": 150000, "moved_entries": 10000, "rewrite_units_changed": 2500, "text_views_checked": 150000, "self_diffs": 50000, "ignore_case_rulebooks": 15000, "acl_diffs_compared": 25000, "removals_of_not_deletable_rows": 4000, "big_blocks_compared": 5000}}
 VENDORS = ["huawei", "h3c", "optixtrans", "cisco", "nexus", "iosxr", "arista", "b4com", "pc", "juniper", "ribbon", "nokia"]
 BRACE = {"juniper", "ribbon", "nokia"}
@@ -179,11 +179,39 @@ def _upper_some(rng, tree, level, inherited=()):
     return out
 
 
-def make_case(seed, icase=False, gnest=False):
+def _cap_ic(rng, tree, level, inherited=(), n=None):
+    """the rows governed by an %ignore_case rule as a device or a generator may spell them: first word capitalised or upper-cased (the diff reports
+    such rows in lower case, whatever their spelling)"""
+    l, g = RB.split_level(level, inherited)
+    out = type(tree)()
+    for row, ch in tree.items():
+        s = RB.select(row, l, g)
+        new_row = row
+        if s is not None and "%ignore_case" in s[0].extra and rng.random() < 0.6:
+            ws = row.split()
+            ws[0] = ws[0].capitalize() if rng.random() < 0.5 else ws[0].upper()
+            new_row = " ".join(ws)
+            if n is not None:
+                n[0] += 1
+        sub = _cap_ic(rng, ch, s[2], s[3], n) if (s is not None and ch) else ch
+        if new_row not in out:
+            out[new_row] = sub
+    return out
+
+
+def make_case(seed, icase=False, gnest=False, overlap=False):
     rng = random.Random(seed)
     vname = VENDORS[rng.randrange(len(VENDORS))]
     v, prefix, exitw, hw, fmt = c01.vendor_env(vname)
-    rules = G.gen_rulebook(rng, depth=3, prefix=prefix, allow=("global", "ordered", "rewrite", "catchall"))
+    rules = G.gen_rulebook(rng, depth=3, prefix=prefix, allow=("global", "ordered", "rewrite", "catchall") + (("overlap",) if overlap else ()))
+    ov_specific = []
+    if overlap:
+        # a more specific block rule in front of a generic one (`interface */Vlanif.+/` before `interface *`): the rows it matches take their
+        # children rules from both; the specific rule brings a %global rule of its own (`gz ~ %global`), in force at every depth below ITS rows only
+        for r_ in rules:
+            if "*/k[12]/" in r_.pat and r_.children is not None:
+                r_.children.append(RB.Rule("gz ~", glob=True))
+                ov_specific.append(r_)
     if rng.random() < 0.3:
         # an ignore rule: rows it matches are unknown to the rulebook
         tgt = rng.choice(rules)
@@ -211,6 +239,23 @@ def make_case(seed, icase=False, gnest=False):
         new = G.gen_tree(rng, rules, foreign=0.2)
     else:
         new = old
+    if ov_specific:
+        from vf.ref import rulelang as R2_
+        from collections import OrderedDict as od2_
+
+        def sow2(tree, srng, depth=0, inside=False):
+            out = od2_()
+            for row, ch in tree.items():
+                here = inside or (depth == 0 and any(R2_.match(r_.pat, row) is not None for r_ in ov_specific))
+                ch = sow2(ch, srng, depth + 1, here) if ch else od2_()
+                if here and depth >= 1 and ch and srng.random() < 0.8:
+                    ch = od2_(ch)
+                    ch["gz k%d x%d" % (srng.randint(1, 3), srng.randint(1, 2))] = od2_()
+                out[row] = ch
+            return out
+        same = new is old
+        old = sow2(old, random.Random(seed ^ 0x0E1))
+        new = old if same else sow2(new, random.Random(seed ^ 0x0E2))
     if gn_host is not None:
         from vf.ref import rulelang as R_
         from collections import OrderedDict as odict_
@@ -250,10 +295,19 @@ def _sprinkle(rng, tree):
             _sprinkle(rng, tree[row])
 
 
-def check_case(seed, acc, icase=False, gnest=False):
+def _all_rows(t):
+    for r, c in t:
+        yield r
+        yield from _all_rows(c)
+
+
+def check_case(seed, acc, icase=False, gnest=False, overlap=False):
     from annet.annlib.patching import make_diff, strip_unchanged, make_pre
     from annet.annlib.diff import gen_pre_as_diff
-    vname, rules, old, new = make_case(seed, icase, gnest)
+    vname, rules, old, new = make_case(seed, icase, gnest, overlap)
+    if overlap and any(r.pat == "gz ~" for r0 in rules for r in (r0.children or [])):
+        acc.count("rulebooks_with_a_specific_rule_bringing_its_own_global_rule")
+        acc.count("rows_of_the_specific_rules_global_family", sum(1 for t_ in (plain(old), plain(new)) for p_ in _all_rows(t_) if p_.startswith("gz ")))
     if gnest and any(r.pat == "gd ~" for r in rules):
         acc.count("rulebooks_with_global_rules_on_two_levels")
     if icase and G.has_feature(rules, lambda r: "%ignore_case" in r.extra):
@@ -261,15 +315,26 @@ def check_case(seed, acc, icase=False, gnest=False):
     v, prefix, exitw, hw, fmt = c01.vendor_env(vname)
     text = RB.render(rules)
     po, pn = plain(old), plain(new)
-    w = {"seed": seed, "icase": icase, "gnest": gnest, "vendor": vname, "rulebook": text, "old": po, "new": pn}
+    w = {"seed": seed, "icase": icase, "gnest": gnest, "overlap": overlap, "vendor": vname, "rulebook": text, "old": po, "new": pn}
+    if icase:
+        # what annet is given: the rows of %ignore_case rules in another letter case (each side on its own)
+        n_ = [0]
+        crng = random.Random(seed ^ 0xCA9)
+        old_in = _cap_ic(crng, old, rules, (), n_)
+        new_in = old_in if new is old else _cap_ic(crng, new, rules, (), n_)
+        acc.count("rows_of_ignore_case_rules_spelled_in_another_case", n_[0])
+        w["old_as_given"], w["new_as_given"] = plain(old_in), plain(new_in)
+    else:
+        old_in, new_in = old, new
+    pio, pin = plain(old_in), plain(new_in)
     try:
         rb = c01.compile_rb(text, vname)
-        d = make_diff(old, new, rb, [])
+        d = make_diff(old_in, new_in, rb, [])
         ds = strip_unchanged(d)
     except Exception as e:
         acc.violation("C03/exception/%s" % type(e).__name__, "make_diff raised on an in-domain input", dict(w, error=repr(e)[:300]))
         return None
-    if plain(old) != po or plain(new) != pn:
+    if plain(old_in) != pio or plain(new_in) != pin:
         acc.violation("C03/inputs-modified", "make_diff modified its arguments", w)
     full = norm(d)
     stripped = norm(ds)
@@ -535,11 +600,12 @@ def run_shard(spec, acc):
         if spec["witness"].get("acl_case"):
             check_acl_case(spec["witness"]["seed"], acc)
             return
-        check_case(spec["witness"]["seed"], acc, icase=bool(spec["witness"].get("icase")), gnest=bool(spec["witness"].get("gnest")))
+        check_case(spec["witness"]["seed"], acc, icase=bool(spec["witness"].get("icase")), gnest=bool(spec["witness"].get("gnest")), overlap=bool(spec["witness"].get("overlap")))
         return
     tier, k, n = spec["tier"], spec["shard"], spec["nshards"]
     total = 8000 if tier == "quick" else 160000
     rng = random.Random("C03/%s/%s" % (spec["seed"], k))
+    orng = random.Random("C03/overlap/%s/%s" % (spec["seed"], k))
     for j in range(total // n):
         w = check_case(rng.randrange(1 << 48), acc)
         if j < 2 and w:
@@ -548,6 +614,8 @@ def run_shard(spec, acc):
             check_case(rng.randrange(1 << 48), acc, icase=True)
         if j % 5 == 3:
             check_case(rng.randrange(1 << 48), acc, gnest=True)
+        if j % 5 in (0, 2):
+            check_case(orng.randrange(1 << 48), acc, overlap=True)
         if j % 5 == 2:
             check_acl_case(rng.randrange(1 << 48), acc)
         if j % 25 == 3:
